@@ -7,6 +7,10 @@ CLAIMED = {
  'C09': dict(engine = 'symx', technique = 'symbolic execution of real dt_bump with z3 (+cvc5 portfolio) over a Gregorian-calendar theory; counterexample replay',
              text = 'Every obligation (n-th weekday law, monotonicity, composition, exact fixed units, month/quarter/year overflow law, round trips, 2- and 3-part compound tenors, named tenors, real tokenizer) is decided by the solver for every start instant of 1900-2300 to the microsecond and every n in [-60,60]; a verdict is "holds for all values in that bound" or a concrete counterexample reproduced on the real code.',
              note = 'Trusted: z3/cvc5, CPython, the proxy classes (validated each run: Gregorian theory vs datetime.date on every ordinal 1770-2430; path models and reachability witnesses replayed on the unpatched code). Stub: int() of a template digit group returns the symbolic n (tokenizer separately run on every concrete n). Outside: time of day for m/q/y units, timezones, timeseries arguments, |n|>60.'),
+
+ 'C07': dict(engine = 'symx', technique = 'symbolic execution of real cmp/sort/dictable.sort with z3 over tagged mixed-type values (extended-real floats, NaN identity, Gregorian dates); counterexample replay',
+             text = 'cmp laws (range, no raise, antisymmetry, reflexivity, transitivity, int==float, NaN above finite) are decided for all pairs/triples of the mixed-type universe with symbolic contents; sort and dictable.sort (permutation, order under cmp, stability, idempotence, value orders) for all lists/tables up to the stated sizes.',
+             note = 'Trusted: z3/cvc5, CPython, proxy classes (validated by concrete replays). Floats are extended reals (no rounding); strings and numpy scalars come from fixed pools chosen by a symbolic index; containers have length <= 2 and depth <= 2; lists <= 4 elements; tables <= 4 rows.'),
 }
 NA = {}
 TODO = 'check not built yet in this session (work in progress); will be decided by symbolic execution of the real code as described in DESIGN.md'
